@@ -46,7 +46,34 @@ def build_factgen_and_run(log):
     os.makedirs(gen, exist_ok=True)
     rc, out = sh([os.path.join(B, "factgen"), REPO, os.path.join(gen, "Facts.lean")])
     log.append(out)
+    if rc != 0:
+        return False
+    # the translator: Go source of the codec core -> Generated/Code.lean (rewritten only when it changes)
+    x = os.path.join(V, "xlate")
+    rc, out = sh(["go1.26.8", "build", "-o", os.path.join(B, "xlate"), "."], cwd=x, env=GOENV)
+    log.append(out)
+    if rc != 0:
+        return False
+    rc, out = sh([os.path.join(B, "xlate"), REPO, os.path.join(gen, "Code.lean"), os.path.join(x, "hints.json")], env=GOENV, timeout=600)
+    log.append(out)
     return rc == 0
+
+
+_closure_cache = {}
+
+
+def import_closure(mod):
+    """Project-local modules (as PsaDhcp/... .lean paths) that `mod` imports, transitively."""
+    if mod in _closure_cache:
+        return _closure_cache[mod]
+    _closure_cache[mod] = set()
+    path = os.path.join(LEAN, mod.replace(".", "/") + ".lean")
+    res = {mod.replace(".", "/") + ".lean"}
+    if os.path.exists(path):
+        for m in re.findall(r"^import (PsaDhcp\.[\w.]+)", open(path).read(), re.M):
+            res |= import_closure(m)
+    _closure_cache[mod] = res
+    return res
 
 
 def strip_comments(src):
@@ -87,7 +114,8 @@ def lean_obligations(pid, log):
         # errors in imported Proofs/Model files break every theorem of the module
         dep_broken = rc != 0 and not file_errs and not any(f.endswith("Expect.lean") for f, _, _ in errs) and \
             ("Props." + m) in out and "error" in out
-        dep_errs = [f for f, _, _ in errs if ("Proofs/" in f or "Model/" in f or "Spec/" in f)]
+        closure = import_closure("PsaDhcp.Props." + m)
+        dep_errs = [f for f, _, _ in errs if f in closure and not f.endswith("Props/" + m + ".lean")]
         for name, a, b in theorem_spans(path):
             full = "%s.%s" % (m, name)
             obligations.append(full)
